@@ -22,23 +22,23 @@ Setup(m, f) == /\ mode' = m /\ filter' = f /\ pend' = [k \in Producers |-> <<>>]
                /\ inflight' = [k \in Producers |-> 0] /\ thr' = [k \in Producers |-> 0 - 1] /\ closed' = FALSE
 
 (* a call at or below the active level is accepted: exactly one line will reach the writer *)
-LogBegin(k, seq, level, plen, on) ==
+LogBegin(k, seq, level, plen, sl, on) ==
     /\ ~closed /\ inflight[k] = 0 /\ level >= 1
     /\ inflight' = [inflight EXCEPT ![k] = seq] /\ thr' = [thr EXCEPT ![k] = on]
-    /\ pend' = IF level <= filter THEN [pend EXCEPT ![k] = Append(@, [seq |-> seq, level |-> level, plen |-> plen])]
+    /\ pend' = IF level <= filter THEN [pend EXCEPT ![k] = Append(@, [seq |-> seq, level |-> level, plen |-> plen, sl |-> sl])]
                ELSE pend
     /\ UNCHANGED <<mode, filter, closed>>
 
-(* a well-formed line: prefix, complete message, one trailing newline, no NUL *)
-WellFormed(ev, level, plen) ==
-    /\ ev.prefix = 1 /\ ev.lvl = level /\ ev.complete = 1 /\ ev.paylen = plen
+(* a well-formed line: prefix with the whole subject name, complete message, one trailing newline, no NUL *)
+WellFormed(ev, level, plen, sl) ==
+    /\ ev.prefix = 1 /\ ev.lvl = level /\ ev.complete = 1 /\ ev.paylen = plen /\ ev.slen = sl
     /\ ev.nl = 1 /\ ev.endsnl = 1 /\ ev.nul = 0
 
 (* the writer receives a line: it is the oldest undelivered accepted line of its producer *)
 Write(ev) ==
     /\ ~closed /\ ev.afterclose = 0
     /\ ev.k \in Producers /\ pend[ev.k] # <<>>
-    /\ LET h == Head(pend[ev.k]) IN h.seq = ev.seq /\ WellFormed(ev, h.level, h.plen)
+    /\ LET h == Head(pend[ev.k]) IN h.seq = ev.seq /\ WellFormed(ev, h.level, h.plen, h.sl)
     /\ mode = "fg" => (inflight[ev.k] = ev.seq /\ ev.on = thr[ev.k])    \* synchronous, on the caller's thread
     /\ pend' = [pend EXCEPT ![ev.k] = Tail(@)]
     /\ UNCHANGED <<mode, filter, inflight, thr, closed>>
@@ -59,10 +59,10 @@ CleanUpRet ==
     /\ closed' = TRUE /\ UNCHANGED <<mode, filter, pend, inflight, thr>>
 
 (* fixed-size line buffer: the line may be cut but stays inside the buffer and is newline-terminated *)
-FixedBufferLine(ev, total, level, plen) ==
+FixedBufferLine(ev, total, level, plen, sl) ==
     /\ ev.len <= total
     /\ ev.endsnl = 1 /\ ev.nl = 1 /\ ev.nul = 0
     /\ (ev.lvl = level \/ (ev.complete = 0 /\ ev.len < 12))     \* a line cut inside the level tag shows no level
-    /\ IF ev.complete = 1 THEN ev.paylen = plen /\ ev.prefix = 1
+    /\ IF ev.complete = 1 THEN ev.paylen = plen /\ ev.prefix = 1 /\ ev.slen = sl
        ELSE ev.len >= total - 1                                             \* cut only because the buffer is full
 =============================================================================
